@@ -138,7 +138,12 @@ class CCodeMapper(SimplifyingSortingStringifyMapper):
             elif is_zero(expr.exponent - 1):
                 return self.rec(expr.base, enclosing_prec)
             elif is_zero(expr.exponent - 2):
-                return self.rec(expr.base*expr.base, enclosing_prec)
+                from pymbolic.mapper.stringifier import PREC_POWER, PREC_PRODUCT
+                # base*base is a product: under another multiplicative
+                # operator it needs parentheses of its own (x / (z*z))
+                return self.rec(expr.base*expr.base,
+                        PREC_POWER if enclosing_prec >= PREC_PRODUCT
+                        else enclosing_prec)
 
         return self.format("pow(%s, %s)",
                 self.rec(expr.base, PREC_NONE),
